@@ -9,6 +9,24 @@ fn main() {
         std::process::exit(2);
     }
     let id = args[1].clone();
+    if id == "C09W" {
+        std::process::exit(mvcore::props::c09::worker_main(&args[2..]));
+    }
+    if id == "C09-corpus" {
+        let dir = args.get(2).expect("C09-corpus DIR SEED COUNT");
+        let seed: u64 = args.get(3).and_then(|v| v.parse().ok()).unwrap_or(1);
+        let count: u64 = args.get(4).and_then(|v| v.parse().ok()).unwrap_or(100);
+        match mvcore::props::c09::emit_corpus(dir, seed, count) {
+            Ok(n) => {
+                println!("{} files", n);
+                std::process::exit(0);
+            }
+            Err(e) => {
+                eprintln!("emit corpus failed: {}", e);
+                std::process::exit(2);
+            }
+        }
+    }
     let mut tier = Tier::Quick;
     let mut seed: u64 = 1;
     let mut threads: usize = std::thread::available_parallelism().map(|n| n.get()).unwrap_or(4).min(16);
